@@ -3,12 +3,14 @@
 Each detector is a small function of index facts; its contract says "fires exactly on its fact, on that line, with
 that severity" (VCs, mode F, on the real functions):
   * Scope.check_use: IMPORT outside an interface body (error, on the statement), unknown module (information, on the
-    USE line), USE after IMPLICIT (error, on the IMPLICIT line) — a fold over the scope's USE statements;
+    USE line), USE on a later line than IMPLICIT (error, on the IMPLICIT line; statements sharing a line are in the
+    required order as far as the index can tell) — a fold over the scope's USE statements;
   * FortranFile.check_file, line-length part: a warning on line i exactly when 0 < limit < len(line i), with the limit
     for comment or code lines according to the real comment regex, range [limit, len];
   * Scope.mark_contains / FortranFile.parse_contains / parse_implicit: second CONTAINS in a scope, CONTAINS or
     IMPLICIT outside any scope (error on that line), and nothing otherwise;
-  * Subroutine/Type/Module.check_valid_parent: a procedure or type nested in a type or block construct.
+  * Subroutine/Type/Module.check_valid_parent: a procedure nested in a type or block construct, a type nested in a type or in a
+    construct other than BLOCK (which has a specification part of its own).
 "No error on any valid program" needs Fortran validity as oracle and the detectors that depend on name resolution
 (declared twice, masking, type not accessible, dummy arguments, deferred bindings) sit on C05's layer: both are
 decided only by the generated-program oracle (valid programs; one seeded defect per class and position) — bounded.
@@ -173,9 +175,9 @@ def build(reg):
         ref_methods={("Obj", "get_type"): ([], INT)},
         locals_={"errors": TSeq(DIAG)}, result=TSeq(DIAG),
         ghost={"constants": {"Import": True, "INTERFACE_TYPE_ID": 5}},
-        ensures=[("use_after_implicit", f"implies(self.implicit_line is not None and maxline(self.use, len(self.use)) >= val(self.implicit_line), "
+        ensures=[("use_after_implicit", f"implies(self.implicit_line is not None and maxline(self.use, len(self.use)) > val(self.implicit_line), "
                                         f"result == usefold(self.use, {INI}, obj_tree, len(self.use)) + [diag(val(self.implicit_line) - 1, 1, 3)])"),
-                 ("no_late_use", f"implies(not (self.implicit_line is not None and maxline(self.use, len(self.use)) >= val(self.implicit_line)), "
+                 ("no_late_use", f"implies(not (self.implicit_line is not None and maxline(self.use, len(self.use)) > val(self.implicit_line)), "
                                  f"result == usefold(self.use, {INI}, obj_tree, len(self.use)))")],
         calls={"Diagnostic": m_diagnostic, "type": m_type},
         loops={0: LoopSpec("for use_stmnt in self.use", index="_k", invariants=[
@@ -257,7 +259,7 @@ def build(reg):
     for cls, mod, expr in (("Subroutine", "subroutine", "self.parent is None or not (self.parent.get_type() == CLASS_TYPE_ID or "
                                                         "self.parent.get_type() >= BLOCK_TYPE_ID)"),
                            ("Type", "type", "self.parent is not None and self.parent.get_type() != CLASS_TYPE_ID and "
-                                            "self.parent.get_type() < BLOCK_TYPE_ID"),
+                                            "self.parent.get_type() <= BLOCK_TYPE_ID"),
                            ("Module", "module", "self.parent is None")):
         reg.add(Contract(
             f"fortls.parsers.internal.{mod}.{cls}.check_valid_parent", prop="C07", receiver_cls=cls, params={},
@@ -428,7 +430,7 @@ def valid_parent_small_scope():
             if cls is Subroutine:
                 want = t is None or not (t == CLASS_TYPE_ID or t >= BLOCK_TYPE_ID)
             elif cls is Type:
-                want = t is not None and t != CLASS_TYPE_ID and t < BLOCK_TYPE_ID
+                want = t is not None and t != CLASS_TYPE_ID and t <= BLOCK_TYPE_ID   # a BLOCK construct has a specification part
             else:
                 want = t is None
             if bool(got) != want:
